@@ -324,7 +324,7 @@ func concurrentSel(c *h.Ctx, r *h.Report, o *gen.Oracle) {
 }
 
 func runSel(c *h.Ctx, r *h.Report) {
-	r.Rule = "lookup histories over a per-case pool (templates from a grammar over all RFC 6570 operators/modifiers with their expansions and near-misses, literals, malformed templates, '*'), against stores of capacity {0,1,2,10000} x shards {1,4,256}; adversarial stream adds, for every occurrence of the cache-key separator, the pair that moves text across it; a concurrent stage has 6 goroutines evaluate 3 template selectors on one store (capacity 0 and 1000) on fresh topics, every answer checked against the protocol relation; a hash-collision stream looks up pairs of distinct keys (same selector with a matching and a non-matching topic; two selectors) that a birthday search found to collide under FNV-32a, the cache's shard hash. Non-trivial = history that repeats a (topic, template-selector) pair and contains both a true and a false non-reflexive answer; distinct by content."
+	r.Rule = "lookup histories over a per-case pool (templates from a grammar over all RFC 6570 operators/modifiers with their expansions and near-misses, literals, malformed templates, '*'), against stores of capacity {0,1,2,10000} x shards {1,4,256}; adversarial stream adds, for every occurrence of the cache-key separator, the pair that moves text across it; a concurrent stage has 6 goroutines evaluate 3 template selectors on one store (capacity 0 and 1000) on fresh topics, every answer checked against the protocol relation; a long-input stream looks up topics and selectors of several hundred bytes that share a long prefix and differ only at the end, with different answers; a hash-collision stream looks up pairs of distinct keys (same selector with a matching and a non-matching topic; two selectors) that a birthday search found to collide under FNV-32a, the cache's shard hash. Non-trivial = history that repeats a (topic, template-selector) pair and contains both a true and a false non-reflexive answer; distinct by content."
 	o := gen.NewOracle()
 	caps := []int{0, 1, 2, 10000}
 	shards := []int{1, 4, 256}
@@ -346,6 +346,20 @@ func runSel(c *h.Ctx, r *h.Report) {
 	for k := 0; k < c.Scale(2, 20); k++ {
 		for _, cs := range hashCollisionCases(c.Rand.Fork()) {
 			runSelCase(c, r, o, cs, "hash-collision")
+		}
+	}
+	// long inputs: topics (and selectors) of several hundred bytes that share a long prefix and differ only at the
+	// end, with different answers — a cache that identifies entries by a bounded part of the key confuses them
+	for k := 0; k < c.Scale(4, 40); k++ {
+		rr := c.Rand.Fork()
+		base := "https://example.com/" + gen.Literal(rr, false) + "/books/"
+		sel := base + "{id}"
+		long := strings.Repeat(h.Pick(rr, []string{"a", "ab", "x1"}), 200+rr.Intn(300))
+		t1, t2 := base+long, base+long+h.Pick(rr, []string{"/reviews", "?x", "#f", " "})
+		longSel := base + strings.Repeat("seg/", 150+rr.Intn(100)) + "{id}"
+		ls1, ls2 := strings.TrimSuffix(longSel, "{id}")+"1", strings.TrimSuffix(longSel, "{id}")+"1/2"
+		for _, lk := range [][]selLookup{{{t1, sel}, {t2, sel}, {t1, sel}}, {{t2, sel}, {t1, sel}, {t2, sel}}, {{ls1, longSel}, {ls2, longSel}}, {{ls2, longSel}, {ls1, longSel}}} {
+			runSelCase(c, r, o, selCase{Cap: h.Pick(rr, []int{2, 10000}), Shards: h.Pick(rr, []int{1, 256}), Lookups: lk}, "long-inputs")
 		}
 	}
 	for i := 0; i < nPlain+nAdv; i++ {
